@@ -11,7 +11,7 @@ from props import PROPS
 NOT_CLAIMED_REASON = {}
 DEFAULT_REASON = "check not built yet (work in progress; see DESIGN.md section 10)"
 
-HOOK_COMMITS = []   # commits in /repo that add `//go:build verif` hook files
+HOOK_COMMITS = ["1edd194"]   # commits in /repo that add `//go:build verif` hook files
 
 
 def main():
